@@ -300,7 +300,7 @@ def run(ctx):
 
     coq.check_property_file(ctx)
     ctx.rule = (
-        "every canonical tree over <= 4 data points with every outlier subset (exhaustive) plus seeded random trees over 5-8 points; "
+        "every canonical tree over <= 4 data points with every outlier subset (exhaustive; thorough adds every tree over 5 points without outliers) plus seeded random trees over 5-8 points; "
         "each built through 9 construction histories (children-first in two sibling orders, one point at a time in shuffled order, "
         "grafting separately built subtrees with clashing labels, from_dict(to_dict()), prune-regraft, relabel_nodes, add+remove of a "
         "scratch point, copy); alpha in {3/10, 1, 5/2, 7} x outlier prior in {0, 1/10} x cluster sizes in 1..3; all histories must agree "
@@ -322,6 +322,8 @@ def run(ctx):
     for n in range(0, 5):
         specs += all_specs(range(n), outliers=True)
     n_enum = len(specs)
+    if not ctx.quick:
+        specs += all_specs(range(5), outliers=False)  # 2992 more trees (not part of the ==/hash pair pool)
     for _ in range(25 if ctx.quick else 400):
         specs.append(random_spec(rng, range(rng.randint(5, NPTS)), outlier_frac=0.25, max_block=rng.choice([1, 2, 3])))
     ctx.extra["enumerated_trees"] = n_enum
